@@ -162,6 +162,18 @@ func VerifNewSim(nBrokers int, topics map[string]int32) *VerifSim {
 	return s
 }
 
+// AddPartitions grows a topic by n partitions (leaders spread over the brokers): what a partition-count change of a
+// subscribed topic looks like to the client from its next metadata response on.
+func (s *VerifSim) AddPartitions(topic string, n int) {
+	s.mu.Lock()
+	defer s.mu.Unlock()
+	for i := 0; i < n; i++ {
+		p := len(s.leader[topic])
+		s.leader[topic] = append(s.leader[topic], s.brokers[p%len(s.brokers)].id)
+	}
+	s.Topics[topic] = int32(len(s.leader[topic]))
+}
+
 func (s *VerifSim) Addrs() []string {
 	var a []string
 	for _, b := range s.brokers {
